@@ -40,6 +40,17 @@ CHECKS["C16"] = dict(
     note="Coq kernel+VM; tr_prec.py; the C grammar transcription in Tok.v and its unambiguity; pycparser; CPython float formatting",
     design="DESIGN.md 3 C16")
 
+CHECKS["C06"] = dict(
+    technique="Coq proof over a hand model of common.integral_data (sorting keeps ids/names/domains paired, offsets delimit groups, dispatch lists exactly the entries of an id); correspondence model vs real function vs independent spec on generated inputs; descriptors read back from cffi-compiled modules",
+    text="For all inputs of integral_data: groups in ufcx order, ids non-decreasing with names/domains paired, offsets = kernel counts per type, slots under an id = entries of that id. Compiled ufcx_form fields (offsets, ids, rank, coefficient positions, constant shapes, kernels present) compared with the declared form for forms with mixed types, tuple ids, repeated ids, prism facets, several forms. The 'sum of kernels = declared integrands' half is left to the value oracle (C01).",
+    note="Coq kernel+VM; hand model tied by correspondence; UFL build_integral_data; cffi/gcc",
+    design="DESIGN.md 3 C06")
+CHECKS["C17"] = dict(
+    technique="Coq proof over overloads translated from lnodes.py on every run (tr_smart): value preservation for all operands and stores in any commutative ring; float_product; correspondence Python result tree vs translated function on every operand-kind pair; optimiser passes: exact rational execution of kernels generated with and without the passes (correspondence only); LN.exec vs gcc bit-exact",
+    text="LExpr.__neg__/__add__/__radd__/__sub__/__rsub__/__mul__/__rmul__/__div__/__rdiv__ and float_product build trees with the same numeric value as the unsimplified operation for all operand kinds/values (exact arithmetic; IEEE corner cases excluded). The optimiser half (fuse_sections, fuse_loops, licm) is NOT proved: kernels with passes on/off are executed over exact rationals in Coq and must give equal tensors (partial).",
+    note="Coq kernel+VM; tr_smart.py; ring hypotheses (satisfiable: SmartQc.v); optimiser by per-kernel exact execution only",
+    design="DESIGN.md 3 C17")
+
 ALL = [f"C{i:02d}" for i in range(1, 21)]
 
 NOT_YET = "check not built yet in this session (work in progress; see DESIGN.md section 6 for the order of construction)"
